@@ -388,7 +388,16 @@ class StmtMixin:
         prev = fr.cur_exc
         fr.cur_exc = info
         fr.in_handler += 1
-        marker = V(("handler", info.cls, info.site), (), info.ctrl)
+        # what the handler's results depend on implicitly: the conditions between the handler's own frame and the raise --
+        # not those of the callers (a callee analysed on its own, as the composition does, could not see them either)
+        hdep = info.ctrl
+        counts = getattr(info, "ctrl_by_depth", None)
+        if counts is not None and fr in self.frames:
+            d_ = self.frames.index(fr)
+            if d_ < len(counts):
+                skip = sum(counts[:d_])
+                hdep = frozenset(s_ for c_, _ in info.ctrl_conds[skip:] for s_ in self.sym(c_))
+        marker = V(("handler", info.cls, info.site), (), hdep)
         fr.ctrl.append((marker, True))
         self.emit(Event("mark", "handler:" + info.cls, None, None, (), site=self.here(h)))
         try:
